@@ -288,6 +288,11 @@ impl<'b> Div<&'b Octet> for &Octet {
     }
 }
 
+#[cfg(feature = "verif_hooks")]
+pub fn verif_tables() -> (&'static [u8; 510], &'static [u8; 256]) {
+    (&OCT_EXP, &OCT_LOG)
+}
+
 #[cfg(test)]
 mod tests {
     use rand::Rng;
